@@ -138,9 +138,12 @@ func runWorldKeep(t *testing.T, p *Plan, keep *[]*Proxy, body func(w *World)) *W
 		w.K = k
 		defIP := "10.0.0.1"
 		if len(p.Cfg.Listens) > 0 {
-			defIP = p.Cfg.Listens[0].Addr
+			defIP = p.Cfg.Listens[0].ip()
 		}
 		w.N = simnet.New(k, defIP)
+		for _, l := range p.Cfg.Listens {
+			w.N.LocalIPs = append(w.N.LocalIPs, l.ip())
+		}
 		w.N.F = p.Cfg.Faults
 		if w.N.F.MaxSegs < 2 {
 			w.N.F.MaxSegs = 6
@@ -389,7 +392,7 @@ func (w *World) decodeEmissions(from int) []*Emitted {
 // listenerOf finds the listen entry (and transport) owning addr.
 func (c *Cfg) listenerAt(ip string, port int) (int, string) {
 	for i, l := range c.Listens {
-		if l.Addr != ip {
+		if l.ip() != ip {
 			continue
 		}
 		if l.UDP == port {
